@@ -87,8 +87,10 @@ func InstantNow() *dtpb.Instant {
 //
 // See: http://hl7.org/fhir/R4/datatypes.html#time
 func Time(t time.Time) *dtpb.Time {
+	day := (time.Hour * 24).Microseconds()
 	return &dtpb.Time{
-		ValueUs:   t.UnixMicro() % (time.Hour * 24).Microseconds(),
+		// (Go's % keeps the sign of the dividend: instants before 1970 need the second reduction)
+		ValueUs:   (t.UnixMicro()%day + day) % day,
 		Precision: dtpb.Time_MICROSECOND,
 	}
 }
